@@ -22,6 +22,7 @@ package croncontroller
 //@        && enqPerKey == store(old(enqPerKey), nsname(jobConfig.Namespace, jobConfig.Name), old(enqPerKey)[nsname(jobConfig.Namespace, jobConfig.Name)] + 1)
 
 //@ func CronWorker.syncOne
+//@   params w, now, key, ts, counts, maxCount
 //@   tags C01, C04
 //@   requires w != nil && cronschedule.swf(w.schedule) && counts != nil && counts != w.schedule.jobConfigs.pq.names
 //@   modifies enqN, enqKey, enqTs, enqPerKey, mapof(counts), w.schedule.jobConfigs.pq.queue, arrays(*heap.Item), mapof(w.schedule.jobConfigs.pq.names), heap(heap.Item)
@@ -45,6 +46,7 @@ package croncontroller
 //@ pure flushKey(jc *execution.JobConfig) string = nsname(jc.Namespace, jc.Name)
 
 //@ func CronWorker.refreshUpdatedJobConfigs
+//@   params w, now
 //@   tags C03
 //@   requires w != nil && cronschedule.swf(w.schedule)
 //@   requires chanrecvd(w.updatedConfigs) <= chansent(w.updatedConfigs) && (forall i int :: chanrecvd(w.updatedConfigs) <= i && i < chansent(w.updatedConfigs) ==> chanat(w.updatedConfigs, i) != nil)
@@ -80,6 +82,7 @@ package croncontroller
 //@ pure capOf(n int) int = n > 0 ? n : 0
 
 //@ func CronWorker.Work
+//@   params w
 //@   tags C01, C03, C04
 //@   requires w != nil && cronschedule.swf(w.schedule)
 //@   requires chanrecvd(w.updatedConfigs) <= chansent(w.updatedConfigs) && (forall i int :: chanrecvd(w.updatedConfigs) <= i && i < chansent(w.updatedConfigs) ==> chanat(w.updatedConfigs, i) != nil)
@@ -111,6 +114,7 @@ package croncontroller
 //@   devirtualize croncontroller.ExecutionControl
 
 //@ func ExecutionControl.CreateJob
+//@   params c, ctx, rjc, rj
 //@   tags C02, C20
 //@   requires c != nil && rj != nil
 //@   modifies jwN, jwKind, jwObj, jwOK, jwErr
@@ -128,6 +132,7 @@ package croncontroller
 //@  && len(jwObj[i].OwnerReferences) == 1 && jwObj[i].OwnerReferences[0].UID == jc.UID && jwObj[i].OwnerReferences[0].Controller != nil && *jwObj[i].OwnerReferences[0].Controller
 
 //@ func Reconciler.processCronForConfig
+//@   params w, ctx, namespace, name, scheduleTime
 //@   tags C02, C06, C20
 //@   requires w != nil && typeis(w.client, *ExecutionControl) && unbox(w.client, *ExecutionControl) != nil && !scheduleTime.IsZero()
 //@   requires typeis(w.store, *activejobstore.Store) && activejobstore.stwf(unbox(w.store, *activejobstore.Store))
@@ -140,6 +145,7 @@ package croncontroller
 
 // failed syncs of this reconciler are requeued without limit (C20)
 //@ func Reconciler.MaxRequeues
+//@   params w
 //@   ensures [C20] unlimited-requeues: result == -1
 
 // ---- informer.go: which JobConfig events re-base the schedule (C03) -----------------------------------------------------------------
@@ -153,6 +159,7 @@ package croncontroller
 //@   ensures updN == old(updN) + 1 && updObj == store(old(updObj), old(updN), jobConfig)
 
 //@ func updateHandler.OnUpdate
+//@   params d, jobConfig
 //@   tags C03
 //@   requires d != nil
 //@   modifies chanof(d.updateChan)
@@ -169,6 +176,7 @@ package croncontroller
 //@   ensures result1 == nil ==> result0 == jsonEq(first, second)
 //@ pure schedEq(a *execution.ScheduleSpec, b *execution.ScheduleSpec) bool = jsonEq(iface(a), iface(b))
 //@ func IsScheduleEqual
+//@   params orig, updated
 //@   tags C03
 //@   ensures [C03] compares-the-whole-schedule-spec: result1 == nil ==> result0 == schedEq(orig, updated)
 
@@ -179,6 +187,7 @@ package croncontroller
 //@     || (typeis(obj, cache.DeletedFinalStateUnknown) && typeis(unbox(obj, cache.DeletedFinalStateUnknown).Obj, *execution.JobConfig))
 
 //@ func InformerWorker.enqueueFlush
+//@   params w, obj
 //@   tags C03
 //@   requires w != nil
 //@   modifies updN, updObj
@@ -186,6 +195,7 @@ package croncontroller
 //@   ensures [C03] ignore-other-objects: !isJobConfigEvent(obj) ==> updN == old(updN)
 
 //@ func InformerWorker.handleUpdate
+//@   params w, oldObj, newObj
 //@   tags C03
 //@   requires w != nil
 //@   modifies updN, updObj
@@ -197,6 +207,7 @@ package croncontroller
 
 // Init registers the handlers; a JobConfig "starts being scheduled from the moment it is created": an add handler is needed too
 //@ func InformerWorker.Init
+//@   params w
 //@   tags C03
 //@   requires w != nil
 //@   modifies regN, regHandler
